@@ -362,6 +362,9 @@ outer:
 
 	ws, err := vx.reportWinsize()
 	if err != nil {
+		// The terminal has been set up (raw mode, alternate screen, modes)
+		// and the caller gets no Vaxis to call Close on: restore it here
+		vx.Close()
 		return nil, err
 	}
 	if ws.XPixel == 0 || ws.YPixel == 0 {
